@@ -521,13 +521,17 @@ func (in *Interp) runPath(entry *ssa.Function, prefix []Decision) (res *PathResu
 			}
 		}()
 	}
-	if res.Status == "ok" && in.cfg.Concrete == nil && in.sampled < in.cfg.SampleModels && len(in.inputs)+len(in.digestInputs) > 0 {
-		func() {
-			defer func() { recover() }()
-			in.syncPC()
-			res.ModelVector = in.modelFor(nil)
-			in.sampled++
-		}()
+	// validation vectors: every worker offers the models of its 1st, 2nd, 4th, 8th, … completed
+	// path; Explore keeps a sample spread over the whole exploration (not just its first paths)
+	if res.Status == "ok" && in.cfg.Concrete == nil && in.cfg.SampleModels > 0 && len(in.inputs)+len(in.digestInputs) > 0 {
+		in.sampled++
+		if in.sampled&(in.sampled-1) == 0 {
+			func() {
+				defer func() { recover() }()
+				in.syncPC()
+				res.ModelVector = in.modelFor(nil)
+			}()
+		}
 	}
 	res.Steps = in.steps
 	res.HashApps = in.hashApps
@@ -657,7 +661,7 @@ func Explore(prog *ssa.Program, entry *ssa.Function, cfg *Config) *Summary {
 			}
 			sum.AssertsSym += res.AssertsSym
 			sum.AllViolations += len(res.Violations)
-			if res.ModelVector != nil && len(sum.ModelVectors) < cfg.SampleModels {
+			if res.ModelVector != nil && len(sum.ModelVectors) < 4096 {
 				sum.ModelVectors = append(sum.ModelVectors, res.ModelVector)
 			}
 			if cfg.Concrete != nil {
@@ -745,5 +749,13 @@ func Explore(prog *ssa.Program, entry *ssa.Function, cfg *Config) *Summary {
 	wg.Wait()
 	sum.Wall = time.Since(start)
 	sort.Slice(sum.Violations, func(i, j int) bool { return sum.Violations[i].Label < sum.Violations[j].Label })
+	if n := len(sum.ModelVectors); n > cfg.SampleModels && cfg.SampleModels > 0 {
+		// evenly spaced over the candidates, the last one included (the deepest paths finish last)
+		var pick [][]InputValue
+		for i := 0; i < cfg.SampleModels; i++ {
+			pick = append(pick, sum.ModelVectors[(i+1)*n/cfg.SampleModels-1])
+		}
+		sum.ModelVectors = pick
+	}
 	return sum
 }
